@@ -34,6 +34,18 @@ for a in args:
                 os.remove(pp)
         json.dump(results, open(res_path, "w"), indent=1, sort_keys=True)
         sys.exit(0)
+def trim_gocache():
+    """mutated trees fill the shared Go build cache quickly: drop entries unused for 2.5 h once it exceeds ~25 GB"""
+    gc = os.environ.get("VERIF_GOCACHE", os.path.join(V, "build", "gocache"))
+    try:
+        sz = int(subprocess.check_output(["du", "-sm", gc]).split()[0])
+        if sz > 25000:
+            subprocess.call(["find", gc, "-type", "f", "-mmin", "+150", "-delete"])
+    except Exception:
+        pass
+
+if part is None:
+    trim_gocache()
 ids = [a for a in args if not a.startswith("--")]
 if not ids:
     ids = sorted(d for d in os.listdir(SEEDED) if os.path.isdir(os.path.join(SEEDED, d)))
